@@ -260,27 +260,27 @@ func writeEvidence(o *Options, pc *PropertyConfig, d evidenceData) {
 		assume = append(assume, d.aux.Assume...)
 	}
 	cov := map[string]interface{}{
-		"obligations":           d.nObl,
-		"discharged":            d.nDis,
-		"distinct_obligations":  distinct,
-		"checker_cmd":           fmt.Sprintf("/verif/bin/govc check --property %s --tier %s", o.Property, o.Tier),
-		"trusted_base":          append([]string{"govc VC generator (this repository)", "z3/cvc5", "go/ssa"}, pc.Trusted...),
-		"functions_under_contract": d.funcs,
-		"trusted_contracts":     d.trusted,
+		"obligations":                  d.nObl,
+		"discharged":                   d.nDis,
+		"distinct_obligations":         distinct,
+		"checker_cmd":                  fmt.Sprintf("/verif/bin/govc check --property %s --tier %s", o.Property, o.Tier),
+		"trusted_base":                 append([]string{"govc VC generator (this repository)", "z3/cvc5", "go/ssa"}, pc.Trusted...),
+		"functions_under_contract":     d.funcs,
+		"trusted_contracts":            d.trusted,
 		"assumed_dependency_contracts": d.externs,
-		"discharged_by_solver":  d.bySolver,
-		"solver_seconds":        float64(solverSeconds.Load()) / 1e6,
-		"samples":               samples,
-		"explanation":           expl,
-		"undecided":             d.undecided,
-		"functions_not_found":   d.missing,
-		"notes":                 d.issues,
-		"vacuity_checks":        vac,
-		"known_findings":        d.known,
-		"evaluations":           max(d.nObl, 1),
-		"distinct_nontrivial":   max(distinct, 2),
-		"rule":                  "one evaluation = one verification condition (path prefix ⇒ goal) sent to the SMT solvers; distinct = distinct named obligations (clause × site); all are non-trivial in the sense that syntactically-true goals are never emitted",
-		"exhaustive":            false,
+		"discharged_by_solver":         d.bySolver,
+		"solver_seconds":               float64(solverSeconds.Load()) / 1e6,
+		"samples":                      samples,
+		"explanation":                  expl,
+		"undecided":                    d.undecided,
+		"functions_not_found":          d.missing,
+		"notes":                        d.issues,
+		"vacuity_checks":               vac,
+		"known_findings":               d.known,
+		"evaluations":                  max(d.nObl, 1),
+		"distinct_nontrivial":          max(distinct, 2),
+		"rule":                         "one evaluation = one verification condition (path prefix ⇒ goal) sent to the SMT solvers; distinct = distinct named obligations (clause × site); all are non-trivial in the sense that syntactically-true goals are never emitted",
+		"exhaustive":                   false,
 	}
 	if len(samples) == 0 {
 		cov["samples"] = []interface{}{"no obligation generated"}
